@@ -1,0 +1,23 @@
+//go:build verif
+
+package packets
+
+import (
+	"time"
+
+	"golang.org/x/net/bpf"
+)
+
+// VerifClassicBPF exposes getClassicBPFFilter to the verification harness.
+func VerifClassicBPF(spec PacketFilterSpec) ([]bpf.RawInstruction, error) {
+	return getClassicBPFFilter(spec)
+}
+
+// VerifSetPacketIDCounter sets the IP-ID allocator's counter.
+func VerifSetPacketIDCounter(x uint32) { curPacketID.Store(x) }
+
+// VerifStripEthernetHeader exposes stripEthernetHeader.
+func VerifStripEthernetHeader(buf []byte) ([]byte, error) { return stripEthernetHeader(buf) }
+
+// VerifGetReadTimeout exposes getReadTimeout.
+func VerifGetReadTimeout(deadline time.Time) time.Duration { return getReadTimeout(deadline) }
